@@ -279,12 +279,14 @@ Proof.
     + rewrite ofold_panic_stays in H. discriminate.
 Qed.
 
-(* a duplicate-free declaration (in particular: no declaration, the derived case) gives a duplicate-free table *)
+(* the value table of a column the factory returned is duplicate-free (the declaration is: the factory rejects
+   any other; what the data adds is new by construction) *)
 Theorem enum_new_nodup data values d vals strict :
-  NoDup values -> enum_new data values = Ok (ECol d vals strict) -> NoDup vals.
+  enum_new data values = Ok (ECol d vals strict) -> NoDup vals.
 Proof.
-  intros Hnd H. rewrite enum_new_unfold in H.
-  destruct (N.to_nat c_maxCardinality <? length values); [discriminate|]. cbv zeta in H.
+  intros H. pose proof (enum_new_ok_nodup _ _ _ H) as Hnd. rewrite enum_new_unfold in H.
+  destruct (N.to_nat c_maxCardinality <? length values); [discriminate|].
+  destruct (nodup_bytes values); [|discriminate]. cbv zeta in H. cbn [negb] in H.
   destruct (ofold (enum_step (negb (length values =? 0))) data (values, [])) as [[vs acc]| |] eqn:Ef; try discriminate.
   cbn in H. inversion H; subst.
   exact (ofold_enum_nodup _ data (values, []) (vals, d) Hnd Ef).
@@ -362,15 +364,15 @@ Definition enum_row_sat (op : cop) (vals : list bytes) (pc : nat) (c : option by
 
 (* the cells of a column built by the factory, seen from the ranks *)
 Lemma enum_new_rank_cell data values d vals strict :
-  enum_new data values = Ok (ECol d vals strict) -> NoDup values ->
+  enum_new data values = Ok (ECol d vals strict) ->
   forall p, p < length data ->
     match nth p data None with
     | None => nth p d 0%N = 255%N
     | Some v => nth p d 0%N <> 255%N /\ index_of v vals = Some (N.to_nat (nth p d 0%N))
     end.
 Proof.
-  intros H Hnd p Hp.
-  pose proof (enum_new_nodup _ _ _ _ _ Hnd H) as Hndv.
+  intros H p Hp. pose proof (enum_new_ok_nodup _ _ _ H) as Hnd.
+  pose proof (enum_new_nodup _ _ _ _ _ H) as Hndv.
   destruct (enum_new_decode _ _ _ _ _ H) as [_ [_ [_ [Hlen _]]]].
   assert (Hd : nth_error d p = Some (nth p d 0%N)) by (apply nth_error_nth'; lia).
   assert (Hdat : nth_error data p = Some (nth p data None)) by (apply nth_error_nth'; lia).
@@ -381,21 +383,21 @@ Qed.
 
 (* C17 filter order *)
 Theorem enum_filter_order mt data values d vals strict cmp op s pc index b :
-  enum_new data values = Ok (ECol d vals strict) -> NoDup values ->
+  enum_new data values = Ok (ECol d vals strict) ->
   cop_of cmp = Some op -> nth_error vals pc = Some s ->
   length index = length b -> Forall (fun p => p < length data) index ->
   e_filter_builtin mt d vals strict index cmp (RConst (AStr s)) b
   = Ok (mask_or b (map (fun p => enum_row_sat op vals pc (nth p data None)) index)).
 Proof.
-  intros H Hnd Hcmp Hs Hlen Hin.
-  pose proof (enum_new_nodup _ _ _ _ _ Hnd H) as Hndv.
+  intros H Hcmp Hs Hlen Hin. pose proof (enum_new_ok_nodup _ _ _ H) as Hnd.
+  pose proof (enum_new_nodup _ _ _ _ _ H) as Hndv.
   destruct (enum_new_decode _ _ _ _ _ H) as [Hl [_ [_ [Hld _]]]].
   apply cop_of_inv in Hcmp. subst cmp.
   assert (Hix : index_of s vals = Some pc) by (apply index_of_spec; assumption).
   rewrite (enum_filter_ranks mt op d vals strict index b s pc Hix Hl Hlen) by (rewrite Hld; exact Hin).
   f_equal. f_equal. apply map_ext_in. intros p Hp.
   rewrite Forall_forall in Hin. specialize (Hin p Hp).
-  pose proof (enum_new_rank_cell _ _ _ _ _ H Hnd p Hin) as Hc.
+  pose proof (enum_new_rank_cell _ _ _ _ _ H p Hin) as Hc.
   unfold rank_sat, enum_row_sat, enum_is_null. change c_nullValue with 255%N.
   destruct (nth p data None) as [v|].
   - destruct Hc as [Hn Hv]. rewrite Hv.
@@ -442,17 +444,17 @@ Proof.
 Qed.
 
 Lemma enum_bitset_filter data values d vals strict index b pred :
-  enum_new data values = Ok (ECol d vals strict) -> NoDup values ->
+  enum_new data values = Ok (ECol d vals strict) ->
   length index = length b -> Forall (fun p => p < length data) index ->
   run L_e fname_filterWithBitset (with_bitset (base_env (ECol d vals strict) None VBad) (bitset_of vals pred)) index b
   = Ok (mask_or b (map (fun p => enum_pred_sat pred (nth p data None)) index)).
 Proof.
-  intros H Hnd Hlen Hin.
+  intros H Hlen Hin. pose proof (enum_new_ok_nodup _ _ _ H) as Hnd.
   destruct (enum_new_decode _ _ _ _ _ H) as [Hl [_ [_ [Hld _]]]].
   rewrite enum_bitset_filter_ranks by (try exact Hlen; rewrite Hld; exact Hin).
   f_equal. f_equal. apply map_ext_in. intros p Hp.
   rewrite Forall_forall in Hin. specialize (Hin p Hp).
-  pose proof (enum_new_rank_cell _ _ _ _ _ H Hnd p Hin) as Hc.
+  pose proof (enum_new_rank_cell _ _ _ _ _ H p Hin) as Hc.
   rewrite bitset_of_spec by lia. unfold enum_pred_sat.
   destruct (nth p data None) as [v|].
   - destruct Hc as [_ Hv]. rewrite (index_of_some _ _ _ Hv). reflexivity.
@@ -466,18 +468,18 @@ Definition name_ilike : bytes := bs 5 0x696c696b65.
 
 (* C17 "in": the rows whose value is one of the listed strings; listing undeclared strings is not an error *)
 Theorem enum_filter_in mt data values d vals strict l index b :
-  enum_new data values = Ok (ECol d vals strict) -> NoDup values ->
+  enum_new data values = Ok (ECol d vals strict) ->
   length index = length b -> Forall (fun p => p < length data) index ->
   e_filter_builtin mt d vals strict index name_in (RConst (AStrs l)) b
   = Ok (mask_or b (map (fun p => enum_pred_sat (fun v => existsb (bytes_eqb v) l) (nth p data None)) index)).
 Proof.
-  intros H Hnd Hlen Hin. unfold e_filter_builtin. cbn [norm_strs]. unfold name_in. reduce_closed.
+  intros H Hlen Hin. pose proof (enum_new_ok_nodup _ _ _ H) as Hnd. unfold e_filter_builtin. cbn [norm_strs]. unfold name_in. reduce_closed.
   apply enum_bitset_filter with (values := values); assumption.
 Qed.
 
 (* C17 like / ilike: the rows whose value the compiled matcher accepts; a pattern that does not compile is an error *)
 Theorem enum_filter_like mt data values d vals strict (cs : bool) pat index b :
-  enum_new data values = Ok (ECol d vals strict) -> NoDup values ->
+  enum_new data values = Ok (ECol d vals strict) ->
   length index = length b -> Forall (fun p => p < length data) index ->
   e_filter_builtin mt d vals strict index (if cs then name_like else name_ilike) (RConst (AStr pat)) b
   = match find_matcher mt pat cs with
@@ -486,7 +488,7 @@ Theorem enum_filter_like mt data values d vals strict (cs : bool) pat index b :
     | None => Panic
     end.
 Proof.
-  intros H Hnd Hlen Hin. unfold e_filter_builtin. cbn [norm_strs].
+  intros H Hlen Hin. pose proof (enum_new_ok_nodup _ _ _ H) as Hnd. unfold e_filter_builtin. cbn [norm_strs].
   destruct cs; unfold name_like, name_ilike; reduce_closed;
     (match goal with |- context[is_like ?c] => let r := eval vm_compute in (is_like c) in change (is_like c) with r end);
     cbv beta iota;
@@ -561,14 +563,14 @@ Definition enum_row_sat2 (op : cop) (vals : list bytes) (c1 c2 : option bytes) :
 
 (* C17 filter order, column against column: two enum columns of the same length over the same table *)
 Theorem enum_filter2_order mt data values d vals strict data2 values2 d2 strict2 cmp op index b :
-  enum_new data values = Ok (ECol d vals strict) -> NoDup values ->
-  enum_new data2 values2 = Ok (ECol d2 vals strict2) -> NoDup values2 ->
+  enum_new data values = Ok (ECol d vals strict) ->
+  enum_new data2 values2 = Ok (ECol d2 vals strict2) ->
   length data2 = length data -> cop_of cmp = Some op ->
   length index = length b -> Forall (fun p => p < length data) index ->
   e_filter_builtin mt d vals strict index cmp (RCol (ECol d2 vals strict2)) b
   = Ok (mask_or b (map (fun p => enum_row_sat2 op vals (nth p data None) (nth p data2 None)) index)).
 Proof.
-  intros H Hnd H2 Hnd2 Hl2 Hcmp Hlen Hin.
+  intros H H2 Hl2 Hcmp Hlen Hin. pose proof (enum_new_ok_nodup _ _ _ H) as Hnd. pose proof (enum_new_ok_nodup _ _ _ H2) as Hnd2.
   destruct (enum_new_decode _ _ _ _ _ H) as [_ [_ [_ [Hld _]]]].
   destruct (enum_new_decode _ _ _ _ _ H2) as [_ [_ [_ [Hld2 _]]]].
   apply cop_of_inv in Hcmp. subst cmp.
@@ -576,8 +578,8 @@ Proof.
   rewrite (proj2 (equal_types_spec vals (length d) vals (length d2))) by (split; [reflexivity|lia]).
   f_equal. f_equal. apply map_ext_in. intros p Hp.
   rewrite Forall_forall in Hin. specialize (Hin p Hp).
-  pose proof (enum_new_rank_cell _ _ _ _ _ H Hnd p Hin) as Hc.
-  pose proof (enum_new_rank_cell _ _ _ _ _ H2 Hnd2 p ltac:(lia)) as Hc2.
+  pose proof (enum_new_rank_cell _ _ _ _ _ H p Hin) as Hc.
+  pose proof (enum_new_rank_cell _ _ _ _ _ H2 p ltac:(lia)) as Hc2.
   unfold rank_sat2, enum_row_sat2, enum_is_null. change c_nullValue with 255%N.
   destruct (nth p data None) as [v|].
   - destruct Hc as [Hn Hv]. rewrite Hv.
@@ -614,17 +616,17 @@ Qed.
 (* C17 null through filters: isnull keeps exactly the null cells, isnotnull exactly the others — a value is never
    taken for null by a filter, null never for a value *)
 Theorem enum_filter_null mt (want_null : bool) data values d vals strict index b :
-  enum_new data values = Ok (ECol d vals strict) -> NoDup values ->
+  enum_new data values = Ok (ECol d vals strict) ->
   length index = length b -> Forall (fun p => p < length data) index ->
   e_filter_builtin mt d vals strict index (if want_null then name_isnull else name_isnotnull) (RConst ANil) b
   = Ok (mask_or b (map (fun p => match nth p data None with None => want_null | Some _ => negb want_null end) index)).
 Proof.
-  intros H Hnd Hlen Hin.
+  intros H Hlen Hin. pose proof (enum_new_ok_nodup _ _ _ H) as Hnd.
   destruct (enum_new_decode _ _ _ _ _ H) as [_ [_ [_ [Hld _]]]].
   rewrite enum_filter_null_ranks by (try exact Hlen; rewrite Hld; exact Hin).
   f_equal. f_equal. apply map_ext_in. intros p Hp.
   rewrite Forall_forall in Hin. specialize (Hin p Hp).
-  pose proof (enum_new_rank_cell _ _ _ _ _ H Hnd p Hin) as Hc.
+  pose proof (enum_new_rank_cell _ _ _ _ _ H p Hin) as Hc.
   unfold enum_is_null. change c_nullValue with 255%N.
   destruct (nth p data None) as [v|].
   - destruct Hc as [Hn _]. destruct (N.eqb_spec (nth p d 0%N) 255) as [E|_]; [contradiction|].
@@ -638,18 +640,20 @@ Theorem enum_new_const_strict b n values :
   values <> [] -> ~ In b values -> enum_new_const (Some b) n values = Fail.
 Proof.
   intros Hne Hn. unfold enum_new_const.
-  destruct (N.to_nat c_maxCardinality <? length values); [reflexivity|]. cbv zeta.
+  destruct (N.to_nat c_maxCardinality <? length values); [reflexivity|].
+  destruct (nodup_bytes values); [|reflexivity]. cbv zeta. cbn [negb].
   rewrite (proj2 (find_value_last_none_iff values b) Hn).
   destruct values; [congruence|reflexivity].
 Qed.
 
 Theorem enum_new_const_decode v n values d vals strict :
-  enum_new_const v n values = Ok (ECol d vals strict) -> length values <= 255 -> NoDup values ->
+  enum_new_const v n values = Ok (ECol d vals strict) -> length values <= 255 ->
   length d = n /\ (exists ext, vals = values ++ ext) /\ (values <> [] -> vals = values)
   /\ forall k, k < n -> cell_at (ECol d vals strict) k = Ok (CEnum v).
 Proof.
-  unfold enum_new_const. destruct (N.to_nat c_maxCardinality <? length values); [discriminate|]. cbv zeta.
-  intros H Hl Hnd. destruct v as [b|].
+  unfold enum_new_const. destruct (N.to_nat c_maxCardinality <? length values); [discriminate|].
+  destruct (nodup_bytes values); [|discriminate]. cbv zeta. cbn [negb].
+  intros H Hl. destruct v as [b|].
   - destruct (find_value_last values b) as [r|] eqn:Ef.
     + inversion H; subst. split; [apply repeat_length|]. split; [exists []; rewrite app_nil_r; reflexivity|].
       split; [reflexivity|]. intros k Hk.
@@ -717,13 +721,13 @@ Qed.
    declared positions, in index order *)
 Theorem enum_frame_filter_order mt f col data values d vals strict cmp op s pc :
   ferr f = false -> lookup_col f col = Some (ECol d vals strict) ->
-  enum_new data values = Ok (ECol d vals strict) -> NoDup values ->
+  enum_new data values = Ok (ECol d vals strict) ->
   cop_of cmp = Some op -> nth_error vals pc = Some s ->
   Forall (fun p => p < length data) (ix f) ->
   frame_filter mt f (CLeaf (mkLeaf col (CmpName cmp) (AStr s) false))
   = Ok (with_ix f (filter (fun p => enum_row_sat op vals pc (nth p data None)) (ix f))).
 Proof.
-  intros Hok Hcol H Hnd Hcmp Hs Hin.
+  intros Hok Hcol H Hcmp Hs Hin. pose proof (enum_new_ok_nodup _ _ _ H) as Hnd.
   apply (enum_frame_filter_ok mt f col d vals strict cmp (AStr s) _ (fun p => p < length data)); try assumption.
   - discriminate.
   - intros i b Hlen Hi. apply (enum_filter_order mt data values); assumption.
@@ -741,12 +745,12 @@ Qed.
 
 Theorem enum_frame_filter_in mt f col data values d vals strict l :
   ferr f = false -> lookup_col f col = Some (ECol d vals strict) ->
-  enum_new data values = Ok (ECol d vals strict) -> NoDup values ->
+  enum_new data values = Ok (ECol d vals strict) ->
   Forall (fun p => p < length data) (ix f) ->
   frame_filter mt f (CLeaf (mkLeaf col (CmpName name_in) (AStrs l) false))
   = Ok (with_ix f (filter (fun p => enum_pred_sat (fun v => existsb (bytes_eqb v) l) (nth p data None)) (ix f))).
 Proof.
-  intros Hok Hcol H Hnd Hin.
+  intros Hok Hcol H Hin. pose proof (enum_new_ok_nodup _ _ _ H) as Hnd.
   apply (enum_frame_filter_ok mt f col d vals strict name_in (AStrs l) _ (fun p => p < length data)); try assumption.
   - discriminate.
   - intros i b Hlen Hi. apply (enum_filter_in mt data values); assumption.
@@ -786,11 +790,11 @@ Proof.
 Qed.
 
 Lemma rank_opt_cell data values d vals strict :
-  enum_new data values = Ok (ECol d vals strict) -> NoDup values ->
+  enum_new data values = Ok (ECol d vals strict) ->
   forall i, i < length data ->
     option_map N.to_nat (rank_opt (nth i d 0%N)) = cell_pos vals (nth i data None).
 Proof.
-  intros H Hnd i Hi. pose proof (enum_new_rank_cell _ _ _ _ _ H Hnd i Hi) as Hc.
+  intros H i Hi. pose proof (enum_new_ok_nodup _ _ _ H) as Hnd. pose proof (enum_new_rank_cell _ _ _ _ _ H i Hi) as Hc.
   unfold rank_opt, enum_is_null, cell_pos. change c_nullValue with 255%N.
   destruct (nth i data None) as [v|].
   - destruct Hc as [Hn Hv]. destruct (N.eqb_spec (nth i d 0%N) 255) as [E|_]; [contradiction|].
@@ -799,14 +803,14 @@ Proof.
 Qed.
 
 Lemma enum_key_spec data values d vals strict :
-  enum_new data values = Ok (ECol d vals strict) -> NoDup values ->
+  enum_new data values = Ok (ECol d vals strict) ->
   forall rev nl i j, i < length data -> j < length data ->
     key_spec (enum_sort_key d, (rev, nl)) i j = enum_lt vals rev nl (nth i data None) (nth j data None).
 Proof.
-  intros H Hnd rev nl i j Hi Hj.
+  intros H rev nl i j Hi Hj. pose proof (enum_new_ok_nodup _ _ _ H) as Hnd.
   destruct (enum_new_decode _ _ _ _ _ H) as [_ [_ [_ [Hld _]]]].
-  pose proof (rank_opt_cell _ _ _ _ _ H Hnd i Hi) as Ci.
-  pose proof (rank_opt_cell _ _ _ _ _ H Hnd j Hj) as Cj.
+  pose proof (rank_opt_cell _ _ _ _ _ H i Hi) as Ci.
+  pose proof (rank_opt_cell _ _ _ _ _ H j Hj) as Cj.
   unfold key_spec, enum_sort_key, key_lt_spec, key_lt_base, key_isnull, key_vlt, enum_lt.
   rewrite !nthd_rank_opt by lia. rewrite <- Ci, <- Cj.
   destruct (rank_opt (nth i d 0%N)) as [x|], (rank_opt (nth j d 0%N)) as [y|], rev; cbn [option_map pos_lt];
@@ -815,15 +819,15 @@ Qed.
 
 (* C17 sort order: Compare on an enum column answers by declared position *)
 Theorem enum_compare_order data values d vals strict :
-  enum_new data values = Ok (ECol d vals strict) -> NoDup values ->
+  enum_new data values = Ok (ECol d vals strict) ->
   forall rev nl i j, i < length data -> j < length data ->
     let a := nth i data None in let b := nth j data None in
     SortProofs.cmp3 (key_compare (enum_sort_key d, (rev, nl)) i j)
     = (if enum_lt vals rev nl a b then Lt else if enum_lt vals rev nl b a then Gt else Eq)
     /\ model_lt [(enum_sort_key d, (rev, nl))] i j = enum_lt vals rev nl a b.
 Proof.
-  intros H Hnd rev nl i j Hi Hj a b. subst a b.
-  pose proof (enum_key_spec _ _ _ _ _ H Hnd rev nl) as K.
+  intros H rev nl i j Hi Hj a b. pose proof (enum_new_ok_nodup _ _ _ H) as Hnd. subst a b.
+  pose proof (enum_key_spec _ _ _ _ _ H rev nl) as K.
   split.
   - rewrite key_compare_spec. unfold cmp_of_lt. rewrite (K i j Hi Hj), (K j i Hj Hi). reflexivity.
   - rewrite model_lt_spec. unfold spec_lt. cbn [map lex_lt_spec]. rewrite (K i j Hi Hj).
@@ -832,10 +836,10 @@ Qed.
 
 (* the key the sort engine computes from the strings is the key of the factory's ranks *)
 Theorem enum_key_of_ranks data values d vals strict :
-  enum_new data values = Ok (ECol d vals strict) -> NoDup values ->
+  enum_new data values = Ok (ECol d vals strict) ->
   enum_key_of vals data = enum_sort_key d.
 Proof.
-  intros H Hnd. pose proof (enum_new_nodup _ _ _ _ _ Hnd H) as Hndv.
+  intros H. pose proof (enum_new_ok_nodup _ _ _ H) as Hnd. pose proof (enum_new_nodup _ _ _ _ _ H) as Hndv.
   destruct (enum_new_decode _ _ _ _ _ H) as [Hl [_ [_ [Hld _]]]].
   unfold enum_key_of, enum_sort_key. f_equal.
   apply nth_ext with (d := None) (d' := None); [rewrite !map_length; lia|].
@@ -843,7 +847,7 @@ Proof.
   change (nth i (map rank_opt d) None) with (nthd (map rank_opt d) None i). rewrite nthd_rank_opt by lia.
   set (f := fun c : option bytes => match c with None => None | Some s => find_value_last vals s end).
   change (nth i (map f data) None) with (nth i (map f data) (f None)). rewrite map_nth. subst f. cbv beta.
-  pose proof (enum_new_rank_cell _ _ _ _ _ H Hnd i Hi) as Hc.
+  pose proof (enum_new_rank_cell _ _ _ _ _ H i Hi) as Hc.
   unfold rank_opt, enum_is_null. change c_nullValue with 255%N.
   destruct (nth i data None) as [v|].
   - destruct Hc as [Hn Hv]. destruct (N.eqb_spec (nth i d 0%N) 255) as [E|_]; [contradiction|].
@@ -860,20 +864,20 @@ Qed.
 From QF Require Import Proofs.SortQuickSorted.
 
 Theorem enum_sort_sorted data values d vals strict (rev nl : bool) ids :
-  enum_new data values = Ok (ECol d vals strict) -> NoDup values ->
+  enum_new data values = Ok (ECol d vals strict) ->
   Forall (fun p => p < length data) ids ->
   exists out, sort_ids (model_lt [(enum_sort_key d, (rev, nl))]) ids = Ok out /\ Permutation out ids /\
     forall i j a b, i < j -> nth_error out i = Some a -> nth_error out j = Some b ->
       enum_lt vals rev nl (nth b data None) (nth a data None) = false.
 Proof.
-  intros H Hnd Hin.
+  intros H Hin. pose proof (enum_new_ok_nodup _ _ _ H) as Hnd.
   destruct (sort_ids_by_keys [(enum_sort_key d, (rev, nl))] ids) as [out [Hs [Hp Hsorted]]].
   exists out. split; [exact Hs|]. split; [exact Hp|].
   intros i j a b Hij Ha Hb.
   rewrite Forall_forall in Hin.
   assert (La : a < length data) by (apply Hin; eapply Permutation_in; [exact Hp|eapply nth_error_In; exact Ha]).
   assert (Lb : b < length data) by (apply Hin; eapply Permutation_in; [exact Hp|eapply nth_error_In; exact Hb]).
-  destruct (enum_compare_order _ _ _ _ _ H Hnd rev nl b a Lb La) as [_ E]. cbv zeta in E.
+  destruct (enum_compare_order _ _ _ _ _ H rev nl b a Lb La) as [_ E]. cbv zeta in E.
   rewrite <- E, model_lt_spec. exact (Hsorted i j a b Hij Ha Hb).
 Qed.
 
@@ -905,7 +909,8 @@ Theorem enum_new_strict_fail data values b :
   values <> [] -> In (Some b) data -> ~ In b values -> enum_new data values = Fail.
 Proof.
   intros Hne Hin Hn. rewrite enum_new_unfold.
-  destruct (N.to_nat c_maxCardinality <? length values); [reflexivity|]. cbv zeta.
+  destruct (N.to_nat c_maxCardinality <? length values); [reflexivity|].
+  destruct (nodup_bytes values); [|reflexivity]. cbv zeta. cbn [negb].
   assert (Hs : negb (length values =? 0) = true) by (destruct values; [congruence|reflexivity]).
   rewrite Hs, (ofold_enum_strict_fail b data (values, []) Hin Hn). reflexivity.
 Qed.
@@ -940,6 +945,7 @@ Lemma new_frame_unfold data order enums :
     let order' := match order with [] => sort_names (map fst data) | _ => order end in
     if negb (Nat.eqb (length order') (length data)) then Ok errf
     else if negb (forallb (fun n => match assocb n data with Some _ => true | None => false end) order') then Ok errf
+    else if negb (nodup_bytes order') then Ok errf
     else
       match ofold (new_step data enums) order' ([], 0, []) with
       | Ok (cs, len, used) =>
@@ -965,17 +971,18 @@ Proof.
   destruct (bytes_eqb k n) eqn:E; [apply bytes_eqb_spec in E; inversion H; subst; left; reflexivity|right; exact (IH H)].
 Qed.
 
-Section NewStrict.
+(* a column of string data listed in Enums whose enum factory refuses: New cannot return a frame without Err *)
+Section NewEnumFail.
   Context (data : list (bytes * newdata)) (enums : list (bytes * list bytes)).
-  Context (n : bytes) (x : list (option bytes)) (values : list bytes) (b : bytes).
-  Context (Hdata : assocb n data = Some (DStrPtrs x)) (Henum : assocb n enums = Some values).
-  Context (Hne : values <> []) (Hin : In (Some b) x) (Hnin : ~ In b values).
+  Context (n : bytes) (dn : newdata) (values : list bytes).
+  Context (Hdata : assocb n data = Some dn) (Hstr : is_string_data dn = true) (Henum : assocb n enums = Some values).
+  Context (Hfail : create_column dn (Some values) = Fail).
 
   Lemma new_step_at_n acc first used : ~ In n used -> new_step data enums (acc, first, used) n = Fail.
   Proof.
-    intro Hu. unfold new_step. rewrite Hdata. cbn [is_string_data andb].
+    intro Hu. unfold new_step. rewrite Hdata, Hstr. cbn [andb].
     rewrite (proj2 (existsb_bytes_false n used) Hu). cbn [negb]. rewrite Henum.
-    rewrite (json_enum_strict x values b Hne Hin Hnin). reflexivity.
+    rewrite Hfail. reflexivity.
   Qed.
 
   Lemma new_step_used st m st' : m <> n -> ~ In n (snd st) -> new_step data enums st m = Ok st' -> ~ In n (snd st').
@@ -1001,14 +1008,13 @@ Section NewStrict.
       split; [intros [X|X]; [exact (Hm X)|exact (A X)]|exact B].
   Qed.
 
-  (* C17 New/ReadJSON strict: whenever New returns a frame for data with an undeclared value in an enum column,
-     the frame carries an error *)
-  Theorem new_frame_enum_strict order f : new_frame data order enums = Ok f -> ferr f = true.
+  Theorem new_frame_enum_fail order f : new_frame data order enums = Ok f -> ferr f = true.
   Proof.
     rewrite new_frame_unfold. cbv zeta.
     destruct (negb (forallb (fun kv => check_name (fst kv)) data)); [intro H; inversion H; reflexivity|].
     destruct (negb (Nat.eqb _ (length data))); [intro H; inversion H; reflexivity|].
     destruct (negb (forallb _ match order with [] => _ | _ => _ end)); [intro H; inversion H; reflexivity|].
+    destruct (negb (nodup_bytes _)); [intro H; inversion H; reflexivity|].
     destruct (ofold (new_step data enums) _ ([], 0, [])) as [[[cs len] used]| |] eqn:E;
       [|intro H; inversion H; reflexivity|discriminate].
     destruct (new_loop_strict _ _ _ (fun X : In n (snd ([], 0, [])) => X) E) as [_ Hu]. cbn [snd] in Hu.
@@ -1018,7 +1024,40 @@ Section NewStrict.
       rewrite (proj2 (existsb_bytes_false n used) Hu) in Ef. discriminate. }
     rewrite Hf. cbn [negb]. intro H; inversion H; reflexivity.
   Qed.
-End NewStrict.
+End NewEnumFail.
+
+(* C17 New/ReadJSON strict: whenever New returns a frame for data with an undeclared value in an enum column,
+   the frame carries an error *)
+Theorem new_frame_enum_strict data enums n x values b :
+  assocb n data = Some (DStrPtrs x) -> assocb n enums = Some values ->
+  values <> [] -> In (Some b) x -> ~ In b values ->
+  forall order f, new_frame data order enums = Ok f -> ferr f = true.
+Proof.
+  intros Hdata Henum Hne Hin Hnin.
+  apply (new_frame_enum_fail data enums n (DStrPtrs x) values Hdata eq_refl Henum).
+  apply (json_enum_strict x values b Hne Hin Hnin).
+Qed.
+
+(* C17 duplicate declaration: createColumn on string data with a declaration that lists a value twice fails
+   (slices of strings / string pointers through the factory, a constant string through NewConst) ... *)
+Theorem create_column_duplicate_rejected d values :
+  is_string_data d = true -> ~ NoDup values -> create_column d (Some values) = Fail.
+Proof.
+  intros Hs Hn. destruct d as [x|x|x|x|x|v c|v c|v c|v c|]; try discriminate Hs; cbn [create_column].
+  - apply enum_new_duplicate_rejected. exact Hn.
+  - apply enum_new_duplicate_rejected. exact Hn.
+  - destruct (c <? 0)%Z; [reflexivity|]. apply enum_new_const_duplicate_rejected. exact Hn.
+Qed.
+
+(* ... and whatever else is supplied, every frame New returns then carries an error *)
+Theorem new_frame_duplicate_rejected data enums n dn values :
+  assocb n data = Some dn -> is_string_data dn = true -> assocb n enums = Some values -> ~ NoDup values ->
+  forall order f, new_frame data order enums = Ok f -> ferr f = true.
+Proof.
+  intros Hdata Hstr Henum Hn.
+  apply (new_frame_enum_fail data enums n dn values Hdata Hstr Henum).
+  apply create_column_duplicate_rejected; assumption.
+Qed.
 
 (* ================================================================== 5. construction through ReadCSV and ReadJSON *)
 From QF Require Import Model.CsvSpec Model.CsvRead.
@@ -1125,10 +1164,37 @@ Definition declared (ev : option (list bytes)) : list bytes := match ev with Som
 Lemma column_to_data_enum pi pf pb e ev cells :
   column_to_data pi pf pb e DEnum ev cells =
   if Nat.ltb enum_max_cardinality (length (declared ev)) then Fail
+  else if negb (nodup_values (declared ev)) then Fail
   else do vr <- enum_fill (Nat.ltb 0 (length (declared ev))) e (declared ev) cells [];
        do cs <- omap (enum_cell (fst vr)) (snd vr);
        Ok (ColEnum (fst vr) cs).
 Proof. unfold column_to_data. rewrite andb_false_r. reflexivity. Qed.
+
+Lemma nodup_values_spec l : nodup_values l = true <-> NoDup l.
+Proof.
+  induction l as [|x l IH]; cbn [nodup_values].
+  - split; [constructor|reflexivity].
+  - rewrite andb_true_iff, negb_true_iff, IH. split.
+    + intros [Hx Hn]. constructor; [|exact Hn]. apply existsb_bytes_false. exact Hx.
+    + intro H. inversion H as [|? ? Hx Hn]; subst. split; [apply existsb_bytes_false; exact Hx|exact Hn].
+Qed.
+
+(* C17 csv: a declaration that lists a value twice is rejected by the enum branch of columnToData *)
+Theorem csv_enum_duplicate_rejected pi pf pb e ev cells :
+  ~ NoDup (declared ev) -> column_to_data pi pf pb e DEnum ev cells = Fail.
+Proof.
+  intro H. rewrite column_to_data_enum.
+  destruct (Nat.ltb enum_max_cardinality (length (declared ev))); [reflexivity|].
+  destruct (nodup_values (declared ev)) eqn:E; [|reflexivity]. exfalso. apply H. apply nodup_values_spec. exact E.
+Qed.
+
+(* ... hence an enum column that was read has a duplicate-free declaration and a duplicate-free value table *)
+Theorem csv_enum_ok_nodup pi pf pb e ev cells c :
+  column_to_data pi pf pb e DEnum ev cells = Ok c -> NoDup (declared ev).
+Proof.
+  intro H. destruct (nodup_values (declared ev)) eqn:E; [apply nodup_values_spec; exact E|].
+  rewrite csv_enum_duplicate_rejected in H; [discriminate|]. intro Hn. apply nodup_values_spec in Hn. congruence.
+Qed.
 
 (* C17 csv decode: the enum branch of columnToData returns the cells that were read — every non-empty cell as
    itself, the empty cell as the VALUE "" unless EmptyNull (then null) —, never more than 255 values, and with
@@ -1140,6 +1206,7 @@ Theorem csv_enum_decode pi pf pb e ev cells c :
 Proof.
   rewrite column_to_data_enum. unfold enum_max_cardinality.
   destruct (Nat.ltb 255 (length (declared ev))) eqn:El; [discriminate|]. apply Nat.ltb_ge in El.
+  destruct (nodup_values (declared ev)); [|discriminate]. cbn [negb].
   destruct (enum_fill (Nat.ltb 0 (length (declared ev))) e (declared ev) cells []) as [[vals rs]| |] eqn:Ef;
     cbn [obind fst snd]; try discriminate.
   destruct (enum_fill_inv _ e cells (declared ev) [] vals rs [] El eq_refl Ef) as [A [B [C D]]].
@@ -1156,6 +1223,7 @@ Theorem csv_enum_strict pi pf pb e ev cells c :
 Proof.
   intros Hne Hin Hn He. rewrite column_to_data_enum.
   destruct (Nat.ltb enum_max_cardinality (length (declared ev))); [reflexivity|].
+  destruct (nodup_values (declared ev)); [|reflexivity]. cbn [negb].
   assert (Hs : Nat.ltb 0 (length (declared ev)) = true)
     by (apply Nat.ltb_lt; destruct (declared ev); [congruence|cbn; lia]).
   rewrite Hs, (enum_fill_strict_fail e (declared ev) c Hn He cells [] Hin). reflexivity.
@@ -1183,7 +1251,8 @@ Qed.
 Lemma enum_new_cases data values :
   enum_new data values = Fail \/ exists d vals strict, enum_new data values = Ok (ECol d vals strict).
 Proof.
-  rewrite enum_new_unfold. destruct (N.to_nat c_maxCardinality <? length values); [left; reflexivity|]. cbv zeta.
+  rewrite enum_new_unfold. destruct (N.to_nat c_maxCardinality <? length values); [left; reflexivity|].
+  destruct (nodup_bytes values); [|left; reflexivity]. cbv zeta. cbn [negb].
   destruct (ofold (enum_step (negb (length values =? 0))) data (values, [])) as [[vs acc]| |] eqn:E.
   - right. exists acc, vs, (negb (length values =? 0)). reflexivity.
   - left. reflexivity.
@@ -1264,6 +1333,18 @@ Section CsvFrame.
     intros Hh Hc Hn Hdt Hev Hne Hin Hnin He.
     apply (convert_cols_fail_at conf k headers cols _ acc h cells Hh Hc Hn).
     rewrite Hdt, Hev. apply (csv_enum_strict pi pf pb _ (Some values) cells c); assumption.
+  Qed.
+
+  (* C17 duplicate declaration at the level of the frame: a column typed enum whose EnumVals entry lists a value
+     twice makes the conversion loop of ReadCSV stop without a frame, whatever its cells *)
+  Theorem csv_convert_duplicate_rejected conf headers cols acc k h cells values :
+    nth_error headers k = Some h -> nth_error cols k = Some cells -> ~ In h (firstn k headers) ->
+    dt_of conf h = DEnum -> assoc h (cf_enum_vals conf) = Some values -> ~ NoDup values ->
+    forall r, convert_cols pi pf pb conf headers cols (cf_enum_vals conf) acc <> Ok r.
+  Proof.
+    intros Hh Hc Hn Hdt Hev Hdup.
+    apply (convert_cols_fail_at conf k headers cols _ acc h cells Hh Hc Hn).
+    rewrite Hdt, Hev. apply (csv_enum_duplicate_rejected pi pf pb _ (Some values) cells). exact Hdup.
   Qed.
 End CsvFrame.
 
@@ -1358,21 +1439,24 @@ End CsvRows.
 Lemma enum_new_strict_flag data values d vals strict :
   enum_new data values = Ok (ECol d vals strict) -> strict = negb (length values =? 0).
 Proof.
-  rewrite enum_new_unfold. destruct (N.to_nat c_maxCardinality <? length values); [discriminate|]. cbv zeta.
+  rewrite enum_new_unfold. destruct (N.to_nat c_maxCardinality <? length values); [discriminate|].
+  destruct (nodup_bytes values); [|discriminate]. cbv zeta. cbn [negb].
   destruct (ofold _ data (values, [])) as [[vs acc]| |]; cbn [obind]; try discriminate.
   intro H. inversion H. reflexivity.
 Qed.
 
 Definition enum_full_statement : Prop :=
-  forall (data : list (option bytes)) (values : list bytes), NoDup values ->
-  (* construction never panics; it fails on an undeclared value and beyond 255 distinct strings *)
+  forall (data : list (option bytes)) (values : list bytes),
+  (* construction never panics; it fails on a declaration that lists a value twice, on an undeclared value and
+     beyond 255 distinct strings *)
   (enum_new data values = Fail \/ exists d vals strict, enum_new data values = Ok (ECol d vals strict))
+  /\ (~ NoDup values -> enum_new data values = Fail)
   /\ ((exists b, values <> [] /\ In (Some b) data /\ ~ In b values) -> enum_new data values = Fail)
   /\ ((exists l, NoDup l /\ 255 < length l /\ forall s, In s l -> In (Some s) data \/ In s values) ->
       enum_new data values = Fail)
   /\ forall d vals strict, enum_new data values = Ok (ECol d vals strict) ->
      (* the value table *)
-     length vals <= 255 /\ NoDup vals /\ (exists ext, vals = values ++ ext)
+     NoDup values /\ length vals <= 255 /\ NoDup vals /\ (exists ext, vals = values ++ ext)
      /\ (values <> [] -> vals = values /\ strict = true) /\ length d = length data
      (* every cell is read back as itself: no value as another string or as null, null as null *)
      /\ (forall k s, nth_error data k = Some s -> cell_at (ECol d vals strict) k = Ok (CEnum s))
@@ -1390,13 +1474,15 @@ Definition enum_full_statement : Prop :=
 
 Theorem enum_full : enum_full_statement.
 Proof.
-  intros data values Hnd.
+  intros data values.
   split; [apply enum_new_cases|].
+  split; [apply enum_new_duplicate_rejected|].
   split; [intros [b [Hne [Hin Hn]]]; apply (enum_new_strict_fail data values b); assumption|].
   split; [intros [l [Hl [Hlen Hin]]]; apply (enum_new_overflow data values l); assumption|].
   intros d vals strict H.
   destruct (enum_new_decode _ _ _ _ _ H) as [Hlv [Hext [Hdecl [Hld Hcell]]]].
-  pose proof (enum_new_nodup _ _ _ _ _ Hnd H) as Hndv.
+  pose proof (enum_new_nodup _ _ _ _ _ H) as Hndv.
+  split; [exact (enum_new_ok_nodup _ _ _ H)|].
   split; [exact Hlv|]. split; [exact Hndv|]. split; [exact Hext|].
   split.
   { intro Hne. split; [exact (Hdecl Hne)|].
@@ -1408,5 +1494,20 @@ Proof.
     + apply (enum_filter_order mt data values); try assumption. apply index_of_some. exact E.
     + apply enum_filter_undeclared; [exact Hcmp|]. apply index_of_none. exact E.
   - intros rev nl i j Hi Hj.
-    destruct (enum_compare_order _ _ _ _ _ H Hnd rev nl i j Hi Hj) as [_ E]. exact E.
+    destruct (enum_compare_order _ _ _ _ _ H rev nl i j Hi Hj) as [_ E]. exact E.
+Qed.
+
+(* ================================================================== New with a duplicate declaration: the Err frame *)
+From QF Require Proofs.NewProofs.
+
+(* New is total (Proofs/NewProofs.v new_frame_spec: a frame without Err or the Err frame), so with an Enums entry
+   that lists a value twice for a column of string data it returns exactly the Err frame, whatever else is supplied *)
+Theorem new_frame_duplicate_err data enums n dn values order :
+  assocb n data = Some dn -> is_string_data dn = true -> assocb n enums = Some values -> ~ NoDup values ->
+  new_frame data order enums = Ok (mkFrame [] [] true).
+Proof.
+  intros Hdata Hstr Henum Hn. pose proof (NewProofs.new_frame_spec data order enums) as H.
+  destruct (NewProofs.new_valid data order enums); [|exact H].
+  destruct H as (f & Hf & He & _).
+  rewrite (new_frame_duplicate_rejected data enums n dn values Hdata Hstr Henum Hn order f Hf) in He. discriminate.
 Qed.
